@@ -4,6 +4,7 @@ Every observation goes through public API of Market / OrderBook / Order / Logger
 getters for quotes, depth and series, `priority_queue` for the per-order book snapshot, the Order
 objects the "agent" (this driver) keeps, and a Logger subclass counting delivered records.
 """
+import heapq
 import math
 import random
 from fractions import Fraction
@@ -89,6 +90,10 @@ def snap_market(m, U):
     u = U.u
     book = sorted([[o.order_id, o.volume] for o in m.buy_order_book.priority_queue + m.sell_order_book.priority_queue])
     bb, bs = m.buy_order_book.get_best_order(), m.sell_order_book.get_best_order()
+    # the order in which a matching round would pop the queues (heappop on COPIES; the book is not touched)
+    qb, qs = list(m.buy_order_book.priority_queue), list(m.sell_order_book.priority_queue)
+    ord_b = [heapq.heappop(qb).order_id for _ in range(len(qb))]
+    ord_s = [heapq.heappop(qs).order_id for _ in range(len(qs))]
     vw = m.get_vwap()
     num, den = sum(m.get_executed_total_prices()), sum(m.get_executed_volumes())
     vw_ok = (math.isnan(vw) if den == 0 else vw == num / den)
@@ -102,6 +107,7 @@ def snap_market(m, U):
         "dB": [[u(p), int(v)] for p, v in m.get_buy_order_book().items()],
         "dS": [[u(p), int(v)] for p, v in m.get_sell_order_book().items()],
         "row": row, "clock": m.get_time(), "run": bool(m.is_running), "vw": bool(vw_ok),
+        "oB": ord_b, "oS": ord_s,
     }
 
 
